@@ -100,6 +100,21 @@ def _mutating(ev, me, merge_name: str = "_merge") -> str | None:
     return None
 
 
+def _content(t):
+    """A copy without updated fields has the content of what it copies."""
+    while op(t) == "call" and op(t[1]) == "attr" and t[1][2] in ("model_copy", "copy") and not any(k == "update" for k, _ in t[3]):
+        t = t[1][1]
+    return t
+
+
+def is_incoming(t) -> bool:
+    """The record add_record was given, or a normalised copy of it (``record.model_copy(update=...)``) that takes
+    its place."""
+    if t == ("param", "record"):
+        return True
+    return op(t) == "call" and op(t[1]) == "attr" and t[1][2] in ("model_copy", "copy") and is_incoming(t[1][1])
+
+
 @obligation("C05-D3", "ORDER reject-before-mutate: in add_record no mutating call or store precedes either `raise`; it rejects >1 matches and a single match without merge; add_prefix builds the Record and delegates with case_sensitive/merge forwarded", floor=3)
 def d3(cx: Cx, ob: Ob) -> None:
     fn = cx.fn(f"{CONV}.add_record", ob.id)
@@ -125,8 +140,23 @@ def d3(cx: Cx, ob: Ob) -> None:
     for ev, _ in s.walk():
         if ev.kind == "bind" and self_call(ev.b, me, "_match_record"):
             matched = ev.b
-            if ev.b[2][:1] != (("param", "record"),):
+            if not (ev.b[2][:1] and is_incoming(ev.b[2][0])):
                 ob.violate(fn.qualname, where(fn, ev.line), "_match_record is not applied to the incoming record", detail="match-arg")
+            elif ev.b[2][0] != ("param", "record"):
+                ob.site(f"{where(fn, ev.line)} {fn.qualname}", "the incoming record is normalised (a copy with updated fields) before it is matched")
+            # one version of the record is matched, stored and indexed: a record normalised AFTER the scan is stored
+            # under names the scan never compared
+            for ev2, _ in s.walk():
+                if ev2.kind == "expr" and op(ev2.a) == "call" and op(ev2.a[1]) == "attr" and ev2.a[1][2] in ("append", "insert") and ev2.a[1][1] == ("attr", me, "records") and ev2.a[2]:
+                    stored = ev2.a[2][-1]
+                    if is_incoming(stored) and ev.b[2][:1] and is_incoming(ev.b[2][0]) and _content(stored) != _content(ev.b[2][0]):
+                        ob.violate(
+                            fn.qualname,
+                            where(fn, ev2.line),
+                            f"add_record matches `{show(ev.b[2][0])[:40]}` against the existing records but stores `{show(stored)[:50]}`: the names it stores were never compared, so a record whose changed names clash with an existing record is appended next to it",
+                            witness="an existing URI prefix 'http://x/' and a new record with ' http://x/': no match as given, equal after the clean-up - two records own one URI prefix",
+                            detail="match-version-skew",
+                        )
             if dict(ev.b[3]).get("case_sensitive") != ("param", "case_sensitive") and ev.b[2][1:2] != (("param", "case_sensitive"),):
                 ob.violate(fn.qualname, where(fn, ev.line), "case_sensitive is not forwarded to _match_record", detail="case-forward")
     if matched is None:
@@ -264,6 +294,17 @@ def d3(cx: Cx, ob: Ob) -> None:
                 # every synonym passed reaches the record: a filter may only drop exact repetitions of the
                 # canonical value (which Record itself rejects)
                 canon_p = ("param", "prefix" if f == "prefix_synonyms" else "uri_prefix")
+
+                def _without_filtered(t):
+                    if op(t) == "comp" and len(t[3]) == 1 and t[3][0][2]:
+                        return ("unk", "filtered")
+                    return tuple(_without_filtered(y) if isinstance(y, tuple) else y for y in t) if isinstance(t, tuple) else t
+
+                if any(y == ("param", f) for y in subterms(_without_filtered(v))):
+                    # the argument also reaches the record whole (a union / concatenation): a filtered comprehension
+                    # next to it only narrows what is ADDED to the caller's names
+                    ob.site(f"{where(ap, ev.line)} {ap.qualname}", f"`{f}` reaches the record whole; filtered additions next to it")
+                    continue
                 for x in subterms(v):
                     if op(x) == "comp" and len(x[3]) == 1 and any(y == ("param", f) for y in subterms(x[3][0][1])):
                         tgt_, _, ifs_ = x[3][0]
@@ -393,7 +434,7 @@ def check_add_record_pairing(cx: Cx, ob: Ob) -> None:
                             into = dict(c[3]).get("into") or (c[2][1] if len(c[2]) > 1 else None)
                             if not any(ch[1] == ev.line and ch[2] == "merge" for ch in changed):
                                 changed.append([into, ev.line, "merge", False])
-                            if c[2][:1] != (("param", "record"),) and dict(c[3]).get("record") != ("param", "record"):
+                            if not (c[2][:1] and is_incoming(c[2][0])) and not is_incoming(dict(c[3]).get("record")):
                                 ob.violate(fn.qualname, where(fn, ev.line), "_merge is not given the incoming record", detail="merge-arg")
                         elif op(c[1]) == "attr" and c[1][2] in ("append", "insert") and c[1][1] == ("attr", me, "records"):
                             changed.append([c[2][-1] if c[2] else None, ev.line, "append", False])
